@@ -109,12 +109,17 @@ func mutateTree(t *rapid.T, der []byte) ([]byte, string) {
 		}
 		r := refs[rapid.IntRange(0, len(refs)-1).Draw(t, fmt.Sprintf("node%d", m))]
 		n := r.Node
-		kind := rapid.SampledFrom([]string{"hostile-len", "hostile-len", "hostile-len", "tag", "len-delta", "drop-content", "bytes", "nest", "delete", "dup", "empty"}).Draw(t, fmt.Sprintf("mk%d", m))
+		kind := rapid.SampledFrom([]string{"hostile-len", "hostile-len", "hostile-len", "tag", "len-delta", "drop-content", "bytes", "nest", "delete", "dup", "empty", "retag-edge", "retag-edge"}).Draw(t, fmt.Sprintf("mk%d", m))
 		notes = append(notes, fmt.Sprintf("%s@depth%d/tag%02x", kind, r.Depth, n.Tag))
 		switch kind {
 		case "hostile-len":
 			hl := rapid.SampledFrom(gen.HostileLengths).Draw(t, fmt.Sprintf("hl%d", m))
 			n.RawHeader = append([]byte{n.Tag}, hl...)
+		case "retag-edge":
+			// a universal tag the parser knows, combined with edge-case content (empty, one byte, lone terminator)
+			n.Tag = rapid.SampledFrom([]byte{0x02, 0x03, 0x04, 0x05, 0x06, 0x0a, 0x17, 0x18, 0x30, 0x31, 0xa0, 0x80}).Draw(t, fmt.Sprintf("rt%d", m))
+			n.Children = nil
+			n.Content = rapid.SampledFrom([][]byte{{}, {0x00}, {'Z'}, {0xff}, {0x80}, []byte("9"), []byte("99999999999999Z")}).Draw(t, fmt.Sprintf("rc%d", m))
 		case "tag":
 			n.Tag = rapid.Byte().Draw(t, fmt.Sprintf("tag%d", m))
 		case "len-delta":
@@ -196,7 +201,7 @@ func genCase(t *rapid.T) Case {
 
 func genCRLCase(t *rapid.T) Case {
 	c := Case{Target: "crl"}
-	c.Kind = rapid.SampledFrom([]string{"random", "truncate", "mutate", "mutate", "mutate", "mutate", "pem-mutate", "empty", "field-len"}).Draw(t, "kind")
+	c.Kind = rapid.SampledFrom([]string{"random", "truncate", "mutate", "mutate", "mutate", "mutate", "pem-mutate", "empty", "field-len", "alg-swap", "time-edge"}).Draw(t, "kind")
 	switch c.Kind {
 	case "random":
 		c.Data = rapid.SliceOfN(rapid.Byte(), 0, 400).Draw(t, "rb")
@@ -244,6 +249,47 @@ func genCRLCase(t *rapid.T) Case {
 		}
 	case "pem-mutate":
 		c.Data, c.Note = mutatePEM(t, der)
+	case "alg-swap":
+		// an otherwise intact CRL whose outer (and/or inner) algorithm is one the reader does not implement
+		roots := gen.ParseTree(der)
+		alg := rapid.SampledFrom([]string{"pss256", "ed25519", "unknown-oid", "empty-seq", "oid-only-garbage"}).Draw(t, "swapalg")
+		var raw []byte
+		switch alg {
+		case "pss256", "ed25519":
+			raw = gen.SigAlgs[alg].AlgIDDER()
+		case "unknown-oid":
+			raw = gen.TLV(0x30, gen.DEROID("1.2.840.113549.1.1.99"), gen.DERNull)
+		case "empty-seq":
+			raw = gen.TLV(0x30)
+		default:
+			raw = gen.TLV(0x30, gen.TLV(0x06, []byte{0xff, 0xff, 0xff}))
+		}
+		roots[0].Children[1].Raw = raw
+		if rapid.Bool().Draw(t, "swapinner") {
+			tbs := roots[0].Children[0]
+			idx := 0
+			if spec.Version >= 0 {
+				idx = 1
+			}
+			tbs.Children[idx].Raw = raw
+		}
+		c.Note = "alg-swap " + alg
+		c.Data = gen.Serialize(roots)
+		if rapid.IntRange(0, 3).Draw(t, "aspem") == 0 {
+			c.Data = gen.PEMEncode(c.Data, false)
+		}
+	case "time-edge":
+		// thisUpdate / nextUpdate with either time tag and edge-case content
+		roots := gen.ParseTree(der)
+		tbs := roots[0].Children[0]
+		for _, ch := range tbs.Children {
+			if (ch.Tag == 0x17 || ch.Tag == 0x18) && rapid.Bool().Draw(t, "te_pick") {
+				ch.Tag = rapid.SampledFrom([]byte{0x17, 0x18}).Draw(t, "te_tag")
+				ch.Content = rapid.SampledFrom([][]byte{{}, {'Z'}, []byte("Z0700"), []byte("991231235959"), []byte("20500101000000Z"), []byte("2050010100000"), []byte("5001010000Z"), []byte("500101000000+0100"), {0x00}, []byte("99999999999999999999Z")}).Draw(t, "te_val")
+				c.Note += fmt.Sprintf("time %02x %q;", ch.Tag, ch.Content)
+			}
+		}
+		c.Data = gen.Serialize(roots)
 	}
 	return c
 }
@@ -442,7 +488,7 @@ func runCase(c Case, x *ev.Ctx) error {
 		if rerr == nil {
 			x.Class("crl/accepted")
 		}
-		if prepassOK(c.Data) {
+		if prepassOK(c.Data) || c.Kind == "alg-swap" {
 			x.Class("crl/reached-main-pass")
 			if len(c.Data) > 70000 {
 				x.Class("crl/large-base")
